@@ -63,6 +63,49 @@ def norm_matcher(u, fn):
     return txt
 
 
+def matcher_clone_obligations(ctx, rule):
+    """The copies of the type-tag matcher that exist are one function up to renaming, and a copy that takes the type
+    string as a parameter is only ever handed rtosc_argument_string(<message>)."""
+    u = ctx.ast(UNIT)
+    ud = ctx.ast("dispatch.c")
+    c1 = ud.function("rtosc_match_args")
+
+    def leaf(t):
+        t = re.sub(r'rtosc_argument_string\(v1\)', 'ARGS', t)
+        t = re.sub(r'= v1;', '= ARGS;', t)
+        t = re.sub(r'\b_Bool\b', 'bool', t)
+        t = re.sub(r'\btrue\b', '1', t)
+        t = re.sub(r'\bfalse\b', '0', t)
+        return t
+    n1 = leaf(norm_matcher(ud, c1))
+    others = [("ports.cpp:arg_matcher", u.function("arg_matcher", required=False)),
+              ("ports.cpp:Port_Matcher::rtosc_match_args", u.function("Port_Matcher::rtosc_match_args", required=False))]
+    present = [(n, f) for n, f in others if f is not None]
+    ctx.require(present, "no copy of the type-tag matcher left in ports.cpp")
+    for name, fn in present:
+        n2 = leaf(norm_matcher(u, fn))
+        ctx.ob(rule, "dispatch.c:rtosc_match_args == %s" % name, n1 == n2, site=A.where(fn), detail={"dispatch.c": n1[:400], name: n2[:400]},
+               what="the type-tag matcher %s differs from dispatch.c's rtosc_match_args: which type strings a port admits depends on the lookup strategy" % name)
+    # call sites of the copy that takes the type string itself
+    am = u.function("arg_matcher", required=False)
+    if am is not None:
+        for q, fns in u.functions.items():
+            for fn in fns:
+                if fn is am:
+                    continue
+                for c in A.calls_in(u.body(fn), "arg_matcher"):
+                    a = A.strip_casts(A.kids(c)[2])
+                    ok = a.get("kind") == "CallExpr" and A.callee_name(a) == "rtosc_argument_string"
+                    if not ok and a.get("kind") == "DeclRefExpr":
+                        d = u.by_id.get(a["referencedDecl"]["id"])
+                        init = A.strip_casts(A.kids(d)[-1]) if d is not None and A.kids(d) else None
+                        ok = init is not None and init.get("kind") == "CallExpr" and A.callee_name(init) == "rtosc_argument_string" and \
+                            not any(y.get("kind") in ("BinaryOperator", "UnaryOperator", "CompoundAssignOperator") and A.ref_id(A.kids(y)[0]) == d["id"] and y.get("opcode") in ("=", "++", "--", "+=")
+                                    for y in A.walk(u.body(fn)))
+                    ctx.ob(rule, "%s -> arg_matcher type string" % q, ok, site=A.where(c), detail={"argument": A.src(a)},
+                           what="%s hands arg_matcher `%s` as the type string instead of rtosc_argument_string(message)" % (q, A.src(a)))
+
+
 def run(ctx):
     u = ctx.ast(UNIT)
     m = ctx.ir(UNIT)
@@ -218,24 +261,7 @@ def run(ctx):
     ctx.require(len(appends) >= 3, "Ports::dispatch: only %d byte-wise appends to d.loc found" % len(appends))
 
     # ---- R04.4
-    ud = ctx.ast("dispatch.c")
-    c1 = ud.function("rtosc_match_args")
-    c2 = u.function("arg_matcher")
-    c3 = u.function("Port_Matcher::rtosc_match_args")
-    t1, t2, t3 = norm_matcher(ud, c1), norm_matcher(u, c2), norm_matcher(u, c3)
-    # the one differing leaf: how the argument string is obtained
-    def leaf(t):
-        t = re.sub(r'rtosc_argument_string\(v1\)', 'ARGS', t)
-        t = re.sub(r'= v1;', '= ARGS;', t)
-        t = re.sub(r'\b_Bool\b', 'bool', t)
-        t = re.sub(r'\btrue\b', '1', t)
-        t = re.sub(r'\bfalse\b', '0', t)
-        return t
-    n1, n2, n3 = leaf(t1), leaf(t2), leaf(t3)
-    ctx.ob("R04.4", "dispatch.c:rtosc_match_args == ports.cpp:Port_Matcher::rtosc_match_args", n1 == n3, site=A.where(c3), detail={"a": n1[:400], "b": n3[:400]},
-           what="the type matcher used by the hashed lookup differs from the one used by the linear scan")
-    ctx.ob("R04.4", "dispatch.c:rtosc_match_args == ports.cpp:arg_matcher", n1 == n2, site=A.where(c2), detail={"a": n1[:400], "b": n2[:400]},
-           what="arg_matcher differs from rtosc_match_args")
+    matcher_clone_obligations(ctx, "R04.4")
 
     # ---- R04.5
     for pat in (r'^rtosc::Ports::Ports\(std::initializer_list', r'^rtosc::ClonePorts::ClonePorts\(', r'^rtosc::MergePorts::MergePorts\('):
